@@ -931,7 +931,13 @@ def thread_jumps(B, max_threads=40):
         # duplicate
         base = len(B.blocks)
         for i, (b, nxt) in enumerate(path):
-            nb = {"stmts": list(B.blocks[b]["stmts"]), "term": {"k": "goto", "t": (base + i + 1) if i + 1 < len(path) else final}}
+            to = (base + i + 1) if i + 1 < len(path) else final
+            if B.blocks[b]["term"]["k"] == "drop":
+                tt = dict(B.blocks[b]["term"])      # a drop on the way stays a drop (guards are released where they were)
+                tt["t"] = to
+            else:
+                tt = {"k": "goto", "t": to}
+            nb = {"stmts": list(B.blocks[b]["stmts"]), "term": tt}
             B.blocks.append(nb)
         ot = dict(B.blocks[o]["term"])
         ot["t"] = base
